@@ -125,13 +125,15 @@ theorem generated_formulas_stable :
 /-- The parts of the source that are modelled by hand (`_bisect`'s loop, the asymptotic series, the `erf`
 arms, the masks-and-writes glue of `_log_gauss_mass`/`ppf`/`logpdf`, the mixture's `log_pdf`/`sample`) still
 have exactly the shape that was modelled; write order of the mass cases, `ppf`/`logpdf` overrides, the
-iteration count and the bracket are the modelled ones. -/
+iteration count and the bracket are the modelled ones.  (`mixture_sample` is the shape after the repair of F33:
+the continuous branch of `sample` clips `_truncnorm.rvs(..)` to `[low, high]` like the stepped branch; the
+projection itself is C10's `tpe_cont_in_domain`.) -/
 theorem generated_shapes_are_the_modelled_ones :
     shapeHashes = [("bisect", "bd62530edcb3cb80"), ("erf_big", "a5f00070375737c4"), ("erf_glue", "124e949a44124265"),
       ("erf_med1", "f59f7942102ae0f5"), ("erf_med2", "5bd60963e2666503"), ("erf_small1", "928f58957e479182"),
       ("erf_small2", "ba4f78e4e05d78b8"), ("erf_tiny", "2ccff60f15fc8d56"), ("log_ndtr_series", "edca02462e2d8619"),
       ("logpdf_glue", "8b03b6c9c5bf5ba4"), ("mass_glue", "80a0e62238c29a14"), ("mixture_head", "261dc16b8b0b5351"),
-      ("mixture_sample", "0a1be5b2cb6a88f0"), ("mixture_tail", "704fb8a0970e4317"), ("ppf_glue", "0a98ea399d3786b4"),
+      ("mixture_sample", "1557041d534e0161"), ("mixture_tail", "704fb8a0970e4317"), ("ppf_glue", "0a98ea399d3786b4"),
       ("rvs_glue", "c0736685d1203f10")]
     ∧ massAssignOrder = ["left:left", "right:right", "central:central"]
     ∧ ppfOverrides = ["q==0:a", "q==1:b", "a==b:math.nan"]
